@@ -54,6 +54,13 @@ def code_of(name):
     return best
 
 
+def _self_job(case):
+    s, queries, opts = case
+    calls = [{"fn": "glycan", "iupac": s, "opts": opts, "methods": [["count", q, fl] for q, fl in queries] + [["get_smiles"], ["summary"]] +
+              [["count", q, fl] for q, fl in queries]}]
+    return apirun.run_calls(calls)[0]
+
+
 def _job(case):
     s, queries = case
     calls = [{"fn": "glycan", "iupac": s, "methods": [["get_smiles"], ["summary"], ["tree"], ["save_dot"]] +
@@ -188,6 +195,37 @@ def run(rep, tier, driver):
                         rep.violation("input", {"iupac": s, "query": q, "where": where}, {"basic": b, "some": so, "every": ev}, "every <= some <= basic", key=KNOWN_EVERY)
             if q == s and fl.get("match_nodes") and isinstance(c, int) and c < 1:
                 rep.violation("input", {"iupac": s, "query": q, "flags": fl}, {"count": c}, ">= 1 (every glycan contains itself)", key="self:%s:%s" % (s, sorted(fl)))
+
+    # glycans whose reducing end is written with its anomer: the glycan must contain itself in every matching mode, and count() must
+    # say the same before and after get_smiles / summary (full=False: nothing is assembled before the first get_smiles)
+    scases = []
+    for i in range(40 if tier == "quick" else 400):
+        t = cv.random_tree(rng, rng.randint(2, 7), chain_bias=0.5)
+        if t.size() < 2 or not cv.get(t.name).get("anomeric"):
+            continue
+        sfx = rng.choice([" a", " b"])
+        s = gen.render(t, "full") + sfx
+        qs = [[s, dict(m, match_nodes=True, **({"match_edges": True} if e else {}))] for m in modes for e in (False, True)]
+        qs += [[t.name + sfx, dict(m, match_root=True)] for m in modes]
+        scases.append((s, qs, rng.choice([{}, {"full": False}])))
+    souts = pmap(_self_job, scases, chunk=1)
+    for (s, qs, opts), o in zip(scases, souts):
+        res = o["result"]
+        rep.count("self-with-root-anomer")
+        if o["exc"] or res is None:
+            rep.case(canon=["self", s], nontrivial=False)
+            continue
+        n = len(qs)
+        before, smi, after = res[:n], res[n], res[n + 2:]
+        rep.case(canon=["self", s, sorted(opts)], nontrivial=isinstance(smi, str) and smi != "")
+        if not (isinstance(smi, str) and smi):
+            continue
+        for (q, fl), b, a in zip(qs, before, after):
+            if b != a:
+                rep.violation("history", {"iupac": s, "opts": opts, "query": q, "flags": fl, "what": "count before and after get_smiles/summary"}, {"before": b, "after": a},
+                              "the same count", key="count-changes:%s:%s" % (s, sorted(fl)))
+            if isinstance(a, int) and a < 1:
+                rep.violation("input", {"iupac": s, "opts": opts, "query": q, "flags": fl}, {"count": a}, ">= 1 (every glycan contains itself / its root)", key="self:%s:%s" % (s, sorted(fl)))
 
     # the Lean Model of recipe_equality (matchBasic / matchSome: C16_some_le_basic_partial is about them) against glycan.py
     import queryx
